@@ -66,7 +66,8 @@ partial def parseValue : List String → Option (Value × List String)
       if r == "1" then some (.bool true, rest) else if r == "0" then some (.bool false, rest) else none
     else if let some r := afterPrefix tok "d:" then
       (if r.isEmpty then some "" else unhex r).map fun s => (.datetime s, rest)
-    else if let some r := afterPrefix tok "a:" then
+    else if let some r := (afterPrefix tok "a:").orElse (fun _ => afterPrefix tok "A:") then
+      -- `A:` is Go's []map[string]interface{} (a TOML array of tables): for the model an array like any other
       match r.toNat? with
       | some n =>
         let rec elems (k : Nat) (toks : List String) (acc : List Value) : Option (List Value × List String) :=
@@ -145,6 +146,8 @@ structure Inst where
   comp : Component
   decl : String
   p : Params
+  /-- the components this instance's `SetParameters` forwards every user map to (declaration name, component, state) -/
+  parts : List (String × Component × Params) := []
 
 structure St where
   decls : Std.HashMap String Decl := {}
@@ -156,6 +159,11 @@ def envOf (st : St) (decl : String) : Env :=
     offers := fun s => match (st.decls.get? decl).bind (·.offers) with
       | some l => l.contains s
       | none => true }
+
+/-- the instance as a chain: itself first, then the components it forwards to -/
+def partsOf (st : St) (inst : Inst) : List Part :=
+  { env := envOf st inst.decl, comp := inst.comp, p := inst.p } ::
+    inst.parts.map fun (d, c, p) => { env := envOf st d, comp := c, p := p }
 
 def sanitize (s : String) : String :=
   String.ofList (s.toList.map fun c => if c.isAlphanum then c else '_')
@@ -257,10 +265,31 @@ def step (st : St) (line : String) : St × String :=
     | some inst, some k =>
       match parsePairs k rest with
       | some (user, []) =>
-        let p' := setParameters (envOf st inst.decl) inst.comp inst.p user
-        ({ st with insts := st.insts.insert id { inst with p := p' } }, stateLine p')
+        match fanOut (partsOf st inst) user with
+        | own :: below =>
+          let parts' := (inst.parts.zip below).map fun ((d, c, _), pt) => (d, c, pt.p)
+          ({ st with insts := st.insts.insert id { inst with p := own.p, parts := parts' } }, stateLine own.p)
+        | [] => bad
       | _ => bad
     | _, _ => bad
+  | ["part", id, c] =>
+    match st.insts.get? id, st.decls.get? c with
+    | some inst, some d =>
+      let comp : Component := { specs := d.specs, mode := d.mode, post := d.post }
+      let p := createDefaults comp.specs
+      ({ st with insts := st.insts.insert id { inst with parts := inst.parts ++ [(c, comp, p)] } }, stateLine p)
+    | _, _ => bad
+  | ["pstate", id, i] =>
+    match st.insts.get? id, i.toNat? with
+    | some inst, some n =>
+      match inst.parts[n]? with
+      | some (_, _, p) => (st, stateLine p)
+      | none => bad
+    | _, _ => bad
+  | ["perrs", id] =>
+    match st.insts.get? id with
+    | some inst => (st, boolStr (reportsErrors (partsOf st inst)))
+    | none => bad
   | "validate" :: c :: kt :: rest =>
     match st.decls.get? c, parseKey kt, parseValue rest with
     | some d, some k, some (v, []) =>
@@ -290,6 +319,12 @@ def step (st : St) (line : String) : St × String :=
     | some inst, some k => (st, boolStr (inst.p.hasEntry k))
     | _, _ => bad
   | ["use", id] => if st.insts.contains id then (st, "used") else bad
+  | ["lateerr", id, n] =>
+    match st.insts.get? id, n.toNat? with
+    | some inst, some k =>
+      let p' := lateMessages inst.p k
+      ({ st with insts := st.insts.insert id { inst with p := p' } }, stateLine p')
+    | _, _ => bad
   | _ => bad
 
 end Driver.Params
